@@ -162,13 +162,13 @@ pub fn check(c: &Case, obs: &mut Obs) -> Verdict {
 }
 
 fn run(ctx: &Ctx) {
-    if !ctx.run_prop("plain", RULE, ctx.cases(1200, 120_000), strat_plain, check) {
+    if !ctx.run_prop("plain", RULE, ctx.cases(1200, 360_000), strat_plain, check) {
         return;
     }
-    if !ctx.run_prop("with_splits", RULE, ctx.cases(1000, 120_000), strat_split, check) {
+    if !ctx.run_prop("with_splits", RULE, ctx.cases(1000, 360_000), strat_split, check) {
         return;
     }
-    ctx.run_prop("asset_events_in_prefix", RULE, ctx.cases(600, 80_000), strat_events_in_prefix, check);
+    ctx.run_prop("asset_events_in_prefix", RULE, ctx.cases(600, 240_000), strat_events_in_prefix, check);
 }
 
 fn replay(name: &str, case: &Value) -> Option<Verdict> {
